@@ -646,6 +646,10 @@ class StaticResource(PrefixResource):
                 file_path = normalized_path.resolve()
             else:
                 file_path = unresolved_path.resolve()
+                # A symlink loop makes a non-strict resolve() stop early and
+                # return a path that still contains unresolved links.
+                if file_path.resolve() != file_path:
+                    raise ValueError("unresolvable symlink")
                 file_path.relative_to(self._directory)
         except (ValueError, *CIRCULAR_SYMLINK_ERROR) as error:
             # ValueError is raised for the relative check. Circular symlinks
